@@ -12,7 +12,8 @@ extern unsigned long model_g_map, model_g_set;
 extern unsigned long model_last_map, model_last_set, model_last2_map, model_last2_set, model_last3_map, model_last3_set;
 // one-shot witness for the next lookup ((size_t)-1: none, the index is chosen nondeterministically)
 extern unsigned long model_pick_map, model_pick_set, model_pick2_map, model_pick2_set, model_pick3_map, model_pick3_set;
-extern unsigned long model_hint_map, model_hint_set; // witness consumed by the most recent lookup
+extern unsigned long model_hint_map, model_hint_set;
+extern unsigned long model_g_vec; // ghost index of vector::erase // witness consumed by the most recent lookup
 unsigned long nondet_model_ulong();
 }
 #endif
